@@ -248,6 +248,14 @@ def judge_rdflib(cfg, stmts, ns, mode):
         where = "rdflib:Graph(bind_namespaces='none').parse"
     if got_f != want_ns:
         return _ns_diff("reader-namespaces-differ", where, got_f, want_ns)
+    if dataset:
+        # the same QUADS / GRAPHS stream read with a plain Graph.parse (rdflib injects nothing there): exactly the declared
+        # bindings again
+        greader = _new_reader(False, "none")
+        greader.parse(data=d_on, format="jelly")
+        if _rd_ns(greader) != want_ns:
+            return _ns_diff("reader-namespaces-differ", "rdflib:Graph(bind_namespaces='none').parse of a QUADS/GRAPHS stream",
+                            _rd_ns(greader), want_ns)
     out = io.BytesIO()
     reader.serialize(out, format="jelly", options=pj.make_options(on), stream=pj.make_stream(on))
     again = prefix_events(pj.parse("rdflib", "flat", out.getvalue()))
